@@ -324,9 +324,7 @@ func TestVerif_C19_share(t *testing.T) {
 		for _, x := range []*Client{c, cc, ccc} {
 			if x != nil {
 				x.Transport.CloseIdleConnections()
-				if x.Dump != nil {
-					x.DisableDumpAll()
-				}
+				c19DisableDump(x)
 			}
 		}
 		s.Count("scenario")
@@ -342,7 +340,7 @@ func TestVerif_C19_share(t *testing.T) {
 		}
 	}
 	// random configurations out of everything reflection finds
-	n := verifh.N(40, 1500)
+	n := verifh.N(40, 400)
 	r := s.Rand()
 	lives := c19Lives()
 	for i := 0; i < n; i++ {
